@@ -19,7 +19,7 @@ func init() { register(c10{}) }
 
 func (c10) ID() string { return "C10" }
 func (c10) Rule() string {
-	return "insert;delete and embed;delete: every location of gen.Universe(L<=5|6,arity<=3) as the single labelled host feature x every index x guest length {1,3}, plus seeded hosts (L<=60, <=8 features, BasicSequence and seqio.GenBank, guests with features): Delete(Insert|Embed(h,i,g),i,len g) must restore the residues and give every host feature the same base atoms and open-end markers as originally, and (for features whose parts are sorted, disjoint and non-abutting) the same number of contiguous range parts (the split re-merged; ambiguous spans split into an order are don't-care structurally). cut;concat: all cut sets of 0..4 interior cut points (exhaustive for L<=6|7 with Universe(L,2), seeded for L<=60): Concat of the Slice pieces restores the residues and, per labelled feature, the union of the fragments' residues (with strand) equals the original's. non-trivial: the edit touches a feature; distinct: canonical case text."
+	return "insert;delete and embed;delete: every location of gen.Universe(L<=5|6,arity<=3) as the single labelled host feature x every index x guest length {1,3}, plus seeded hosts (L<=60, <=8 features, BasicSequence and seqio.GenBank, guests with features): Delete(Insert|Embed(h,i,g),i,len g) must restore the residues and give every host feature the same base atoms and open-end markers as originally, and (for features whose parts are sorted, disjoint and non-abutting) the same number of contiguous range parts (the split re-merged; ambiguous spans split into an order are don't-care structurally). cut;concat: all cut sets of 0..4 distinct cut points in [0,L] (0 and L give an empty end piece) (exhaustive for L<=6|7 with Universe(L,2), seeded for L<=60): Concat of the Slice pieces restores the residues and, per labelled feature, the union of the fragments' residues (with strand) equals the original's. non-trivial: the edit touches a feature; distinct: canonical case text."
 }
 func (c10) RequiredBuckets(tier string) []string {
 	out := []string{"undo:Insert", "undo:Embed", "undo:split-remerged", "undo:ambiguous-dontcare", "cut:0", "cut:1", "cut:2", "cut:3", "cut:4", "cut:feature-fragmented", "host:genbank", "host:basic"}
@@ -266,11 +266,11 @@ func cutSets(L, maxCuts int, f func([]int)) {
 		if len(cur) == maxCuts {
 			return
 		}
-		for x := from; x < L; x++ {
+		for x := from; x <= L; x++ {
 			rec(x+1, append(cur, x))
 		}
 	}
-	rec(1, nil)
+	rec(0, nil) // 0 and L are legitimate cut positions: they give an empty end piece
 }
 
 func (m c10) Run(c *fw.Ctx) {
@@ -338,6 +338,9 @@ func (m c10) Run(c *fw.Ctx) {
 		cs := map[int]bool{}
 		for k := 0; k < nc && L > 1; k++ {
 			cs[1+r.Intn(L-1)] = true
+		}
+		if nc > 0 && r.Intn(6) == 0 {
+			cs[[]int{0, L}[r.Intn(2)]] = true
 		}
 		cuts := []int{}
 		for x := range cs {
